@@ -255,7 +255,7 @@ def instances(tier):
             out.append({'func': 'h_square_quasi', 'params': {'d': d, 'n': n, 'target_i': t, 'unique': False},
                         'opts': {'symbolic_signs': False}})
     out.append({'func': 'h_square_unique', 'params': {'n': 2, 'm': 2}, 'opts': {'symbolic_signs': False}})
-    for n, m in ([([2, 3], 3), ([2, 2], 3), ([3], 4)] if quick else [([2, 3], 3), ([2, 2], 3), ([3], 4), ([3, 2], 5), ([4], 6)]):
+    for n, m in ([([2, 3], 3), ([2, 2], 3), ([3], 4), ([3], 2), ([4], 3)] if quick else [([2, 3], 3), ([2, 2], 3), ([3], 4), ([3], 2), ([4], 3), ([3, 2], 5), ([4], 6)]):
         for perm in ('reverse', 'rotate'):
             out.append({'func': 'h_lhs', 'params': {'n': n, 'm': m, 'perm': perm}})
     for n, r in ([([2, 2], 2), ([2, 2, 2], 2)] if quick else [([2, 2], 2), ([2, 2, 2], 2), ([3, 3], 2), ([3, 3, 3], 3)]):
